@@ -88,8 +88,8 @@ def check_file(ctx, path, base, want_values, factor, calc, qs, case_id, cls, dat
         return False
     if fin.any():
         err = numpy.abs(vals[fin] - want[fin]).max() / (numpy.abs(want[fin]).max() + 1e-300)
-        ctx.maxi("cell_err/tol", err / 1e-9)
-        if not (err <= 1e-9):
+        ctx.maxi("cell_err/tol", err / 1e-8)
+        if not (err <= 1e-8):
             ratio = numpy.median(vals[fin] / want[fin]) if numpy.all(want[fin] != 0) else float("nan")
             ctx.violation(f"cells:{cls}:{base}", f"{os.path.basename(path)}: cells differ from the in-memory result in the documented unit by {err:.3g} "
                           f"(median ratio {ratio:.6g})", case_id, data)
@@ -163,15 +163,28 @@ def _run(ctx, e2e):
         written = set(os.listdir(outdir))
         expected = {}
         comps = [tuple(int(x) for x in k.voigt) for k in calc.modulus_keys]
+        # in-memory reference: volume-base quantities as they are; pressure-base quantities converted by the oracle's own
+        # (T,V)->(T,P) interpolation (C06) from the volume-base ones, so that a pressure-base interface that hands out the wrong
+        # tensor cannot vouch for itself
+        from .c06 import oracle_v2p
+        P_tv = numpy.asarray(calc.volume_base.pressures, float)
+        desired = numpy.asarray(calc.pressure_base.p_array, float)
+
+        def to_tp(arr_tv):
+            with numpy.errstate(all="ignore"):
+                return oracle_v2p(numpy.asarray(arr_tv, float), P_tv, desired)[0]
         for base, (kws, pattern, prop, factor, kind, bases), kw, _ in plan:
-            iface = calc.pressure_base if base == "tp" else calc.volume_base
             if kind == "ij":
-                store = getattr(iface, prop)
+                store = getattr(calc, prop)            # the calculator's own (T,V) tensors
                 for key in calc.modulus_keys:
                     p = tuple(int(x) for x in key.voigt)
-                    expected[pattern.format(base=base, ij="%d%d" % p)] = (base, numpy.asarray(store[key]), factor, f"{prop}", p)
+                    arr = numpy.asarray(store[key])
+                    expected[pattern.format(base=base, ij="%d%d" % p)] = (base, to_tp(arr) if base == "tp" else arr, factor, f"{prop}", p)
+            elif prop == "volumes":
+                expected[pattern.format(base=base)] = (base, to_tp(numpy.tile(numpy.asarray(calc.v_array, float), (P_tv.shape[0], 1))), factor, prop, None)
             else:
-                expected[pattern.format(base=base)] = (base, numpy.asarray(getattr(iface, prop)), factor, prop, None)
+                arr = numpy.asarray(getattr(calc.volume_base, prop))
+                expected[pattern.format(base=base)] = (base, to_tp(arr) if base == "tp" else arr, factor, prop, None)
         ctx.evaluation(f"write_output|alias-round-{alias_round}", (i, alias_round), sample={**sample, "files_written": len(written)})
         if written != set(expected):
             ctx.violation("file-set", f"files written {sorted(written - set(expected))[:5]} unexpected / {sorted(set(expected) - written)[:5]} missing "
